@@ -24,11 +24,12 @@ type NCCall struct {
 }
 
 // NCFault tells the fake device how the next call of an operation behaves.
-//   ""/"ok"  success
-//   "warn"   success, the reply carries an rpc-error of severity warning (EditConfig)
-//   "err"    the device answers with an rpc-error: the driver returns an error; for
-//            EditConfig the candidate may already hold a part of the edit
-//   "eof"    the connection dies: error containing EOF, IsAlive() turns false
+//
+//	""/"ok"  success
+//	"warn"   success, the reply carries an rpc-error of severity warning (EditConfig)
+//	"err"    the device answers with an rpc-error: the driver returns an error; for
+//	         EditConfig the candidate may already hold a part of the edit
+//	"eof"    the connection dies: error containing EOF, IsAlive() turns false
 type NCFault struct {
 	Edit, Commit, Discard string
 }
@@ -49,6 +50,44 @@ type NCFake struct {
 	// OnCall, if set, runs at the start of every driver call with the call's 0-based index (no lock held)
 	OnCall func(i int)
 	ncalls int
+	// ApplyEdits: the fake is a device model - an edit-config that reaches the running datastore (directly or by a
+	// commit) is applied to Config with RFC 6241 semantics (merge; operation delete / remove / replace); HonorNS:
+	// the documents are decoded with namespace scoping. EditAnomalies collects what the decoder could not place.
+	ApplyEdits    bool
+	HonorNS       bool
+	EditAnomalies []string
+	Edits         int // documents applied to Config
+}
+
+// applyDocLocked applies one edit-config document to the device configuration.
+func (f *NCFake) applyDocLocked(doc string) {
+	if strings.HasPrefix(doc, "PARTIAL:") {
+		return
+	}
+	if f.Config == nil {
+		f.Config = Conf{}
+	}
+	ch := DecodeXMLDoc(doc, f.HonorNS)
+	f.EditAnomalies = append(f.EditAnomalies, ch.Anomalies...)
+	for _, r := range ch.Replaces {
+		f.Config.ApplyDelete(r)
+	}
+	for _, d := range ch.Deletes {
+		f.Config.ApplyDelete(d)
+	}
+	for _, k := range ch.Updates.SortedKeys() {
+		f.Config.ApplyUpdate(MustCanon(k), ch.Updates[k])
+	}
+	f.Edits++
+}
+
+// TakeEditAnomalies returns and clears the decoder complaints about applied documents.
+func (f *NCFake) TakeEditAnomalies() ([]string, int) {
+	f.mu.Lock()
+	defer f.mu.Unlock()
+	a := f.EditAnomalies
+	f.EditAnomalies = nil
+	return a, f.Edits
 }
 
 func NewNCFake() *NCFake { return &NCFake{Alive: true} }
@@ -119,6 +158,9 @@ func (f *NCFake) EditConfig(tgt string, doc string) (*types.NetconfResponse, err
 			f.Pending = append(f.Pending, doc)
 		} else {
 			f.Running = append(f.Running, doc)
+			if f.ApplyEdits {
+				f.applyDocLocked(doc)
+			}
 		}
 		noMsg := k == "warn-nomsg"
 		if noMsg {
@@ -158,6 +200,11 @@ func (f *NCFake) Commit() error {
 	case "ok":
 		f.Commits = append(f.Commits, append([]string{}, f.Pending...))
 		f.Running = append(f.Running, f.Pending...)
+		if f.ApplyEdits {
+			for _, doc := range f.Pending {
+				f.applyDocLocked(doc)
+			}
+		}
 		f.Pending = nil
 		f.rec(NCCall{Op: "Commit", Result: "ok"})
 		return nil
@@ -382,8 +429,8 @@ type NCSet struct {
 	// NoChange: the proto rendering of the same tree holds neither updates nor deletes
 	NoChange bool
 	WantDoc  string
-	Err     error
-	Warn    []string
+	Err      error
+	Warn     []string
 }
 
 func (t *NCTee) Get(ctx context.Context, req *sdcpb.GetDataRequest) (*sdcpb.GetDataResponse, error) {
@@ -421,5 +468,5 @@ func (t *NCTee) LastSet() (NCSet, int) {
 }
 
 func (t *NCTee) Sync(ctx context.Context, c *config.Sync, ch chan *target.SyncUpdate) {}
-func (t *NCTee) Status() *target.TargetStatus                                        { return t.NC.Status() }
-func (t *NCTee) Close() error                                                        { return nil }
+func (t *NCTee) Status() *target.TargetStatus                                         { return t.NC.Status() }
+func (t *NCTee) Close() error                                                         { return nil }
